@@ -286,6 +286,15 @@ pub fn run(opts: &Opts) -> i32 {
          codecs; plus connection-level delivery to a payload-reading handler (fragment writes x reader pace x buffer \
          sizes). distinct = distinct (stream, cut set, min chunk)",
     );
+    if let Some(p) = &opts.replay {
+        let v: Value = serde_json::from_str(&std::fs::read_to_string(p).expect("replay file")).expect("json");
+        if let Some(code) = super::c10_conn::replay_conn(&v) {
+            if code == 1 {
+                println!("VIOLATION property=C10 replay={}", p.display());
+            }
+            return code;
+        }
+    }
     let quick = opts.tier == Tier::Quick;
     let min_chunks = [0u32, 1, 4, 1024, 32768];
 
